@@ -62,9 +62,13 @@ func runFree(base string, seed int64, idx int) (res *seqResult) {
 		x := rnd.Intn(100)
 		switch {
 		case offlineSince >= 0 && i-offlineSince > 2+rnd.Intn(4):
-			w.online()
+			w.online(false)
 			offlineSince = -1
 			script = append(script, "on")
+			if w.deadlocked {
+				d.reportDeadlock(d.observe())
+				return res
+			}
 		case x < 55:
 			n := 1 + rnd.Intn(3)
 			d.doAppend(n)
@@ -91,7 +95,9 @@ func runFree(base string, seed int64, idx int) (res *seqResult) {
 			d.count("free.follower_restart."+mode, 1)
 		case x < 88:
 			if offlineSince < 0 {
-				w.offline()
+				if _, closed, _ := w.offline(); closed {
+					d.count("free.node_failure_closed_pooled_connection", 1)
+				}
 				offlineSince = i
 				script = append(script, "off")
 			}
@@ -116,9 +122,14 @@ func runFree(base string, seed int64, idx int) (res *seqResult) {
 	// quiesce: no more faults, follower up and live, one more append so that a dead stream gets noticed
 	w.tr.setFaults(faults{})
 	atomic.StoreInt32(&w.failPuts, 0)
-	w.online()
+	w.online(false)
+	script = append(script, "on")
+	if w.deadlocked {
+		d.reportDeadlock(d.observe())
+		return res
+	}
 	d.doAppend(1)
-	script = append(script, "on", "a1", "wait")
+	script = append(script, "a1", "wait")
 	converged := func() bool {
 		a := w.lLog.Queue().AppendedSeq()
 		return w.fReal.Queue().AppendedSeq() == a && w.lCG.ConsumedSeq() == a && w.lCG.AcknowledgedSeq() == a
@@ -138,6 +149,7 @@ func runFree(base string, seed int64, idx int) (res *seqResult) {
 	probes := 0
 	isWedged := false
 	var parkedSince time.Time
+	dumpTick := 0
 	for !converged() {
 		// lost wake-up: the follower is live, the notification was delivered when the quiesce phase began, and the
 		// replicator still publishes "follower node is offline". A goroutine that had been woken leaves that state
@@ -149,11 +161,29 @@ func runFree(base string, seed int64, idx int) (res *seqResult) {
 				d.violate("C08/no-resync/online-notification-lost-between-liveness-check-and-park",
 					"free-running loop: the follower is live and its online notification has been delivered, the replicator stays parked in IsReady (a second notification wakes it) [%s]", strings.Join(script, " "))
 				d.count("free.lost_wakeup_healed_by_second_notification", 1)
-				w.lSM.notify(models.NodeOnline)
+				w.online(false)
 				parkedSince = time.Time{}
 			}
 		} else {
 			parkedSince = time.Time{}
+		}
+		// dead client: the replicator keeps calling through a client whose connection has been closed (the follower's
+		// node-failure event closed it) and creates no new one in between. A closed connection never comes back and
+		// nothing else is going to happen on this channel: a logical condition, not a timeout.
+		var deadCalls int
+		w.tr.obs(func() { deadCalls = w.tr.closedConnCallsInARow })
+		if deadCalls >= 5 {
+			o := d.observe()
+			d.upstreamViolated = true
+			d.violate("C08/no-resync/client-bound-to-closed-connection",
+				"free-running loop: the follower is live again, the replicator made %d calls in a row through a client whose connection had been closed by the follower's node-failure event, without creating a new client: %s msg=%q [%s]",
+				deadCalls, o.String(), o.Msg, strings.Join(script, " "))
+			isWedged = true
+			break
+		}
+		if w.lSM.recheckWindow.Load() == rwIdle && w.lSM.notifierDeadlockedEvery(&dumpTick) {
+			d.reportDeadlock(d.observe())
+			return res
 		}
 		if last, ok := wedged(); ok {
 			if probes == 2 {
@@ -203,7 +233,11 @@ func runFree(base string, seed int64, idx int) (res *seqResult) {
 	d.count("free.leader_appends", int(o.A+1))
 	res.Evals++
 	var fired []string
-	w.tr.obs(func() { fired = append(fired, w.tr.fired...) })
+	w.tr.obs(func() {
+		fired = append(fired, w.tr.fired...)
+		d.count("free.connections_dialled", w.tr.connsDialled)
+		d.count("free.calls_through_client_of_closed_connection", w.tr.closedConnCalls)
+	})
 	for _, f := range fired {
 		d.count("free.fault_fired."+f, 1)
 	}
